@@ -104,7 +104,7 @@ def parse_prog(text):
 
 
 def campaign(c, ctx, r, nprogs, mask, tier, want_stats=False, variants=("pred", "tend", "stop"), ranks_list=(1,),
-             extra_cfgs=None, jobs=4, watchdog=25, delays=(None,), long_every=4, only_cfgs=None, use_corpus=True):
+             extra_cfgs=None, jobs=4, watchdog=25, delays=(None,), long_every=4, only_cfgs=None, use_corpus=True, nets=(None,)):
     """runs nprogs generated programs under several configurations; returns a list of run records"""
     runs, progs = [], []
     k = 0
@@ -133,7 +133,7 @@ def campaign(c, ctx, r, nprogs, mask, tier, want_stats=False, variants=("pred", 
         progs.append(pr)
         for ci, l in enumerate(pcfg):
             t = l.split()
-            corpus_jobs.append((pr, int(t[2]), int(t[3]), int(t[4]), 1, 100 + ci, None if t[5] == "-" else t[5]))
+            corpus_jobs.append((pr, int(t[2]), int(t[3]), int(t[4]), 1, 100 + ci, None if t[5] == "-" else t[5], None))
     jobs_list = list(corpus_jobs)
     for pr in progs:
         if pr["path"].startswith(os.path.join(V.VERIF, "corpus")):
@@ -143,19 +143,19 @@ def campaign(c, ctx, r, nprogs, mask, tier, want_stats=False, variants=("pred", 
             for ranks in ranks_list:
                 if ranks > 1 and pr["p"]["lps"] < ranks:
                     continue          # a rank without LPs: known finding F15, probed separately by the C08 check
-                jobs_list.append((pr, th, ck, gp, ranks, ci, delays[(pr["idx"] + ci) % len(delays)]))
+                jobs_list.append((pr, th, ck, gp, ranks, ci, delays[(pr["idx"] + ci) % len(delays)], nets[(pr["idx"] + ci + ranks) % len(nets)] if ranks > 1 else None))
 
     def one(job):
-        pr, th, ck, gp, ranks, ci, delay = job
+        pr, th, ck, gp, ranks, ci, delay, net = job
         tag = "%d_%d_%d" % (pr["idx"], ci, ranks)
         tf = os.path.join(ctx["sd"], "trace_%s.txt" % tag) if mask else None
         sf = os.path.join(ctx["sd"], "stats_%s" % tag) if want_stats else "-"
         res = S.run_sim(ctx["exe"], pr["path"], threads=th, ckpt=ck, gvt=gp, tend=pr["tend"], stats=sf, trace_file=tf,
-                        trace_mask=mask, watchdog=watchdog, timeout=watchdog + 30, ranks=ranks, delay=delay)
+                        trace_mask=mask, watchdog=watchdog, timeout=watchdog + 30, ranks=ranks, delay=delay, net=net)
         tr = S.read_trace(tf) if tf else []
         if tf and os.path.exists(tf):
             os.remove(tf)
-        return dict(prog=pr, cfg=(th, ck, gp, ranks), res=res, trace=tr, stats=(sf + ".bin") if want_stats else None, delay=delay)
+        return dict(prog=pr, cfg=(th, ck, gp, ranks), res=res, trace=tr, stats=(sf + ".bin") if want_stats else None, delay=delay, net=net)
 
     with ThreadPoolExecutor(jobs) as ex:
         runs = list(ex.map(one, jobs_list))
@@ -164,7 +164,7 @@ def campaign(c, ctx, r, nprogs, mask, tier, want_stats=False, variants=("pred", 
 
 def describe(run):
     th, ck, gp, ranks = run["cfg"]
-    return dict(threads=th, checkpoint_interval=ck, gvt_period_us=gp, ranks=ranks, variant=run["prog"]["variant"], injected_delay=run.get("delay"),
+    return dict(threads=th, checkpoint_interval=ck, gvt_period_us=gp, ranks=ranks, variant=run["prog"]["variant"], injected_delay=run.get("delay"), network_delays=run.get("net"),
                 tend=run["prog"]["tend"], cmd=run["res"].cmd)
 
 
